@@ -447,7 +447,14 @@ def reifyValue (std : Stdlib) : Nat → FOpts → Ty → Val → Outcome GoVal
 /-- reify.go reifyPrimitive (+ the array / regexp cases that end up in it) -/
 def reifyPrimitiveT (std : Stdlib) (fo : FOpts) : Ty → Val → Outcome GoVal
   | ty, v =>
-    if v.isNilPrim then .ok (zeroOf ty)
+    if v.isNilPrim then
+      -- "zero initialize value if val==nil"; the elements of a zero array are validated like elements left as they are
+      match ty with
+      | .array _ _ =>
+        (match recValidate std fo.opts ty [] (zeroOf ty) with
+         | some e => raiseValidation e
+         | none => .ok (zeroOf ty))
+      | _ => .ok (zeroOf ty)
     else
       match ty with
       | .prim k =>
